@@ -231,6 +231,7 @@ type lcOrigin struct {
 	attempts int
 	parked   []net.Conn
 	serving  net.Conn
+	done     chan struct{} // closed when the connection being served has ended
 }
 
 func newLcOrigin() *lcOrigin {
@@ -903,8 +904,10 @@ func runLifecycleScenario(sc *lcScenario, emitEv func(M)) {
 			if c != nil {
 				origin.mu.Lock()
 				origin.serving = c
+				done := make(chan struct{})
+				origin.done = done
 				origin.mu.Unlock()
-				go func() { _ = rtmp.NewServerSession(nullObserver{}, c).RunLoop() }()
+				go func() { _ = rtmp.NewServerSession(nullObserver{}, c).RunLoop(); close(done) }()
 			}
 			waitPullNotif()
 			// a refused attempt is disposed by lal: its stop notification follows the refusal
@@ -974,7 +977,24 @@ func runLifecycleScenario(sc *lcScenario, emitEv func(M)) {
 			emit("PushEnd", x, "ok")
 		case "Shutdown":
 			sm.Dispose()
-			emit("Shutdown", "", "ok")
+			ret := "ok"
+			if origin != nil {
+				// a relay pull session that is attached is one of the server's sessions: shutdown closes it
+				origin.mu.Lock()
+				c, done := origin.serving, origin.done
+				origin.mu.Unlock()
+				if c != nil && done != nil {
+					select {
+					case <-done:
+					case <-time.After(2 * time.Second):
+						ret = "pullopen"
+					}
+				}
+				if st.ExpNotif > 0 {
+					waitPullNotif()
+				}
+			}
+			emit("Shutdown", "", ret)
 		case "Advance":
 			time.Sleep(time.Duration(autoMs)*time.Millisecond + 60*time.Millisecond)
 			lastStep = time.Now()
